@@ -152,6 +152,28 @@ class Ctx:
     def broken(self, msg):
         raise AnalysisBroken(msg)
 
+    def named(self, rule, found, name, rec_re=None):
+        """discriminates a vanished name from an unused one. `found`: the events a rule located through the function
+        name `name`. Returns True when found. When nothing was found: if no function called `name` (in a record
+        matching rec_re) exists any more, the anchor was renamed or removed - the rule cannot decide (deferred exit 2)
+        and None is returned; if the function still exists but is not used at this site, False is returned and the rule
+        reports its violation (a dropped call is the regression the rule is there for)."""
+        if found:
+            return True
+        rx = re.compile(rec_re) if rec_re else None
+        for fn in self.fb.all_fns():
+            if fn.name == name and (rx is None or rx.search(fn.record or "") or rx.search(fn.qname or "")):
+                return False
+        for rname, rec in self.fb.records().items():
+            if rx is not None and not rx.search(rname):
+                continue
+            for m in rec.get("methods", []):
+                if (m.get("name") if isinstance(m, dict) else m) == name:
+                    return False
+        self.unmet.append("%s: the function '%s'%s no longer exists (renamed or removed): the rule anchored on it cannot decide" % (
+            rule, name, (" of %s" % rec_re) if rec_re else ""))
+        return None
+
 
 def load_known():
     p = os.path.join(VERIF, "known_findings.json")
@@ -284,6 +306,32 @@ def anchor_files(prop):
     return set()
 
 
+def check_anchor_names(ctx, module):
+    """ANCHORS of a rule module: {function name: record regex} for every function the rules locate *by name*.
+    A name that no longer exists in its class was renamed or removed: the rules anchored on it cannot decide
+    (exit 2) - they must not report the absence of the old name as a violation. (A function that still exists but
+    is no longer called where a rule expects it is a different matter: that is the regression, and it is reported.)
+    The table is validated by tools/rename_sweep.py, which renames every member function of the anchor files in
+    turn and requires exit 0 or 2."""
+    anchors = getattr(module, "ANCHORS", None)
+    if not anchors:
+        return
+    have = {}
+    for fn in ctx.fb.all_fns():
+        have.setdefault(fn.name, []).append((fn.record or "") + " " + (fn.qname or ""))
+    for rname, rec in ctx.fb.records().items():
+        for m in rec.get("methods", []):
+            nm = m.get("name") if isinstance(m, dict) else m
+            have.setdefault(nm, []).append(rname)
+    gone = []
+    for name, rec_re in sorted(anchors.items()):
+        rx = re.compile(rec_re) if rec_re else None
+        if not any(rx is None or rx.search(w) for w in have.get(name, [])):
+            gone.append("%s (of %s)" % (name, rec_re or "any class"))
+    if gone:
+        raise AnalysisBroken("function(s) the rules are anchored on no longer exist (renamed or removed), cannot decide: %s" % ", ".join(gone))
+
+
 def generic_rules(ctx, module):
     """two rules armed for every property over the records / functions defined in its anchor files:
     G1 a user-provided move constructor / move assignment / swap transfers every data member and data-carrying base
@@ -335,6 +383,7 @@ def run_property(prop, module, tier):
                     ctx.note("sweep unit dropped (compile errors under clang): %s" % tu.name)
                 elif tu.errors:
                     raise AnalysisBroken("unit %s has compile errors under clang" % tu.name)
+            check_anchor_names(ctx, module)
             module.run(ctx)
             generic_rules(ctx, module)
             if hasattr(module, "extra") and tier == "thorough":
